@@ -1,5 +1,6 @@
 /- The model of `Schedule.generate`: the generic algorithm at the model of the code's Date/Calendar. -/
 import FinVerif.Core.ScheduleAlgo
+import FinVerif.Core.CDSAlgo
 import FinVerif.Model.DateArith
 
 namespace FinVerif.Model
@@ -25,5 +26,14 @@ def schedule (eff term : PyDate) (numMonths cal conv : Int) (backward adjTerm eo
       | .error e => .error e
       | .ok r2 => .ok r2.dates
     else .ok r.dates
+
+end FinVerif.Model
+
+namespace FinVerif.Model
+open FinVerif
+
+/-- `CDS(step_in, maturity, cpn, …, freq, dc, cal, conv, rule)` → payment and accrual-start dates. -/
+def cdsDates (stepIn maturity : PyDate) (numMonths cal conv : Int) (backward : Bool) : Except PyErr Sched.CdsDates :=
+  Sched.cdsGenerate (schedOps cal conv) stepIn maturity numMonths backward 5000
 
 end FinVerif.Model
